@@ -38,6 +38,7 @@ type frame struct {
 	modRefs   map[string][]string // top-level modifies: region -> refs
 	modKnown  bool
 	mayPanic  bool
+	atCallSeen map[string]int
 }
 
 type loopInfo struct {
@@ -245,6 +246,9 @@ func (c *FnCtx) execFunction(fr *frame, st0 *State, g0 string) {
 	for _, li := range fr.loops {
 		if fr.con != nil {
 			li.spec = fr.con.Loops[li.ordinal]
+		}
+		if li.spec == nil && len(c.prof.AutoLoopInv) > 0 {
+			li.spec = &LoopSpec{Inv: c.prof.AutoLoopInv}
 		}
 		// single-entry check
 		for b := range li.body {
